@@ -84,7 +84,7 @@ def main():
         ws = run(mod, 'st_static', lambda: [bpa.sym_arg('v', 8)], regs)
         g = [n for n in ws[0].regions if n.startswith('@')]
         expect(tg + ':static', ws[0].status == 'ok' and g and ws[0].regions[g[0]].writes == {0}
-               and B.has_unknown(ws[0].ret))
+               and ws[0].ret == tuple(I(g[0], 1, b) for b in range(8)))
     build.cleanup()
     if FAIL:
         print('engine self-test failed: %d expectation(s)' % len(FAIL))
